@@ -130,6 +130,12 @@ class Domain:
   def maybe_unassigned_read(self, cls, name, node, st):
     pass
 
+  def maybe_unbound_read(self, name, node, st):
+    pass
+
+  def array_str_compare(self, key, const, node, st):
+    pass
+
   def refined(self, v):
     """A value whose constant facet was narrowed by a branch test."""
     return v
@@ -356,6 +362,12 @@ class Engine:
   def _merge(self, states):
     """Post-merge list of states according to the domain's mode."""
     states = [s for s in states if s is not None]
+    if self.dom.fork and len(states) > 1:
+      uniq = []
+      for s in states:
+        if not any(self.states_equal(s, u) for u in uniq):
+          uniq.append(s)
+      states = uniq
     if self.dom.fork and len(states) <= self.dom.max_states:
       return states
     j = self.join_states(states)
@@ -914,6 +926,8 @@ class Engine:
 
   def load_name(self, name, node, st, func):
     if name in st.vars:
+      if ('?unbound', name) in st.vars:
+        self.dom.maybe_unbound_read(name, node, st)
       return st.vars[name]
     m = func.module
     if name in m.functions:
@@ -1776,7 +1790,8 @@ class Engine:
             if lv.c is not NOCONST and k not in lv.c:
               return False
             if lv.ty == 'ndarray' and isinstance(k, str):
-              # array == 'str' is elementwise False (and warns): not taken
+              # array == 'str': elementwise comparison in a truth test
+              self.dom.array_str_compare(key, k, test, st)
               return False
             st.vars[key] = lv.with_(
                 c=frozenset([k]),
